@@ -141,7 +141,28 @@ impl V {
 // ---------------------------------------------------------------------------------------------
 // the case abstraction
 
+/// A stream that legally transfers at most `k` bytes per read call.
+pub struct Trickle {
+    pub cur: Cursor<Vec<u8>>,
+    pub k: usize,
+}
+
+impl std::io::Read for Trickle {
+    fn read(&mut self, buf: &mut [u8]) -> std::io::Result<usize> {
+        let n = buf.len().min(self.k);
+        self.cur.read(&mut buf[..n])
+    }
+}
+
+impl std::io::Seek for Trickle {
+    fn seek(&mut self, pos: std::io::SeekFrom) -> std::io::Result<u64> {
+        self.cur.seek(pos)
+    }
+}
+
 pub trait BoxCase {
+    /// as `lib_decode_eq`, through a stream that transfers at most `k` bytes per read call
+    fn lib_decode_eq_trickle(&self, bytes: &[u8], k: usize) -> Result<(bool, u64, String), String>;
     fn type_name(&self) -> &'static str;
     fn shape(&self) -> String;
     fn describe(&self) -> Value;
@@ -182,7 +203,7 @@ pub struct Case<B> {
 
 impl<B> BoxCase for Case<B>
 where
-    B: Mp4Box + PartialEq + std::fmt::Debug + for<'w> WriteBox<&'w mut Vec<u8>> + for<'r> ReadBox<&'r mut Cursor<Vec<u8>>>,
+    B: Mp4Box + PartialEq + std::fmt::Debug + for<'w> WriteBox<&'w mut Vec<u8>> + for<'r> ReadBox<&'r mut Cursor<Vec<u8>>> + for<'r> ReadBox<&'r mut Trickle>,
 {
     fn type_name(&self) -> &'static str {
         self.tname
@@ -213,6 +234,18 @@ where
     }
     fn lib_decode_eq(&self, bytes: &[u8]) -> Result<(bool, u64, String), String> {
         self.lib_decode_eq_at(&[], bytes)
+    }
+    fn lib_decode_eq_trickle(&self, bytes: &[u8], k: usize) -> Result<(bool, u64, String), String> {
+        let mut t = Trickle { cur: Cursor::new(bytes.to_vec()), k };
+        let r = guard(|| {
+            let h = BoxHeader::read(&mut t)?;
+            B::read_box(&mut t, h.size)
+        });
+        match r {
+            Ok(Ok(v)) => Ok((v == self.lib, t.cur.position(), format!("{:?}", v))),
+            Ok(Err(e)) => Err(format!("Err({})", e)),
+            Err(p) => Err(format!("PANIC {}", short_loc(&p))),
+        }
     }
     fn lib_decode_both(&self, a: &[u8], b: &[u8]) -> Result<Option<(bool, u64, u64)>, String> {
         let dec = |x: &[u8]| {
@@ -366,7 +399,7 @@ where
 
 fn case<B>(tname: &'static str, shape: String, lib: B, node: Node) -> Box<dyn BoxCase>
 where
-    B: Mp4Box + PartialEq + std::fmt::Debug + 'static + for<'w> WriteBox<&'w mut Vec<u8>> + for<'r> ReadBox<&'r mut Cursor<Vec<u8>>>,
+    B: Mp4Box + PartialEq + std::fmt::Debug + 'static + for<'w> WriteBox<&'w mut Vec<u8>> + for<'r> ReadBox<&'r mut Cursor<Vec<u8>>> + for<'r> ReadBox<&'r mut Trickle>,
 {
     Box::new(Case { tname, shape, lib, node, payload_mask: None, decode_only: false })
 }
@@ -651,6 +684,12 @@ pub fn g_avc1(nsps: usize, npps: usize, v: &mut V) -> (Avc1Box, Node) {
 }
 
 pub fn g_hvcc(arrays: &[usize], v: &mut V) -> (HvcCBox, Node, Vec<u8>) {
+    let lens: Vec<Vec<usize>> = arrays.iter().map(|&n| (0..n).map(|j| 2 + j).collect()).collect();
+    g_hvcc_lens(&lens, v)
+}
+
+/// hvcC with the given parameter-set lengths per array (lengths 0 and 1 are legal on the wire).
+pub fn g_hvcc_lens(lens: &[Vec<usize>], v: &mut V) -> (HvcCBox, Node, Vec<u8>) {
     let h = rb::HvcC {
         configuration_version: v.u8(),
         profile_space: v.bits(2) as u8,
@@ -669,7 +708,7 @@ pub fn g_hvcc(arrays: &[usize], v: &mut V) -> (HvcCBox, Node, Vec<u8>) {
         num_temporal_layers: v.bits(3) as u8,
         temporal_id_nested: v.flag(),
         length_size_minus_one: v.bits(2) as u8,
-        arrays: arrays.iter().map(|&n| (v.flag(), v.bits(6) as u8, (0..n).map(|j| v.bytes(2 + j)).collect())).collect(),
+        arrays: lens.iter().map(|ls| (v.flag(), v.bits(6) as u8, ls.iter().map(|&l| v.bytes(l)).collect())).collect(),
     };
     let node = rb::hvcc(&h);
     let plen = if let crate::refmp4::tree::Body::Leaf(p) = &node.body { p.len() } else { 0 };
@@ -701,8 +740,13 @@ pub fn g_hvcc(arrays: &[usize], v: &mut V) -> (HvcCBox, Node, Vec<u8>) {
 }
 
 pub fn g_hev1(arrays: &[usize], v: &mut V) -> (Hev1Box, Node, Vec<u8>) {
+    let lens: Vec<Vec<usize>> = arrays.iter().map(|&n| (0..n).map(|j| 2 + j).collect()).collect();
+    g_hev1_lens(&lens, v)
+}
+
+pub fn g_hev1_lens(lens: &[Vec<usize>], v: &mut V) -> (Hev1Box, Node, Vec<u8>) {
     let vis = visual(v);
-    let (h, hn, hm) = g_hvcc(arrays, v);
+    let (h, hn, hm) = g_hvcc_lens(lens, v);
     let mut n = rb::hev1(&vis, &rb::HvcC::default());
     n.children_mut().unwrap()[0] = hn;
     // mask over the hev1 payload: 78 sample-entry bytes + 8 header bytes of hvcC + hvcC payload
@@ -1301,6 +1345,21 @@ pub fn all_cases(tier: Tier) -> Vec<Box<dyn BoxCase>> {
             add!("avcC", format!("sps={} pps={}", nsps, npps), |v: &mut V| g_avcc(nsps, npps, 4, v));
         }
     }
+    // parameter sets of length 0 and 1 (legal on the wire), also in last position
+    for (nsps, npps, len) in [(1usize, 1usize, 0usize), (1, 1, 1), (2, 2, 0), (1, 0, 0), (0, 1, 0)] {
+        add!("avcC", format!("sps={} pps={} nal_len={}", nsps, npps, len), |v: &mut V| g_avcc(nsps, npps, len, v));
+    }
+    for lens in [vec![vec![0usize]], vec![vec![1]], vec![vec![4, 0]], vec![vec![0, 4]], vec![vec![3], vec![0]], vec![vec![0], vec![3]], vec![vec![0, 0, 0]], vec![vec![4, 1]], vec![vec![], vec![0]]] {
+        let shape = format!("nal_lengths={:?}", lens);
+        modes(|v| {
+            let (l, n, m) = g_hvcc_lens(&lens, v);
+            out.push(Box::new(Case { tname: "hvcC", shape: format!("{} mode={}", shape, v.mode), lib: l, node: n, payload_mask: Some(m), decode_only: false }));
+        });
+        modes(|v| {
+            let (l, n, m) = g_hev1_lens(&lens, v);
+            out.push(Box::new(Case { tname: "hev1", shape: format!("{} mode={}", shape, v.mode), lib: l, node: n, payload_mask: Some(m), decode_only: false }));
+        });
+    }
     for (s, p) in [(1usize, 1usize), (0, 0), (2, 2)] {
         add!("avc1", format!("sps={} pps={}", s, p), |v: &mut V| g_avc1(s, p, v));
     }
@@ -1401,7 +1460,7 @@ pub fn all_cases(tier: Tier) -> Vec<Box<dyn BoxCase>> {
 
 fn fx<B>(bytes: &[u8]) -> Result<Option<bool>, String>
 where
-    B: Mp4Box + PartialEq + std::fmt::Debug + for<'w> WriteBox<&'w mut Vec<u8>> + for<'r> ReadBox<&'r mut Cursor<Vec<u8>>>,
+    B: Mp4Box + PartialEq + std::fmt::Debug + for<'w> WriteBox<&'w mut Vec<u8>> + for<'r> ReadBox<&'r mut Cursor<Vec<u8>>> + for<'r> ReadBox<&'r mut Trickle>,
 {
     let dec = |b: &[u8]| {
         let mut cur = Cursor::new(b.to_vec());
